@@ -95,6 +95,8 @@ class Gen:
     def value(self, depth):
         r = self.r
         if depth <= 0 or r.random() < 0.35:
+            if self.k.get("casts") and r.random() < 0.3:
+                return r.choice(["true", "false", "True", "3", "12", "-2", "abc", "0"])
             return self.scalar()
         return self.container(depth)
 
@@ -442,6 +444,13 @@ class Gen:
         if cast_ok and r.random() < 0.5:
             # cast write-back only works below string/float keys
             nodes = [n for n in iter_nodes(doc) if n[0] and all(isinstance(k, str) for k in n[0])]
+            # mostly aim at nodes a cast really applies to (strings), preferably nested
+            strs = [n for n in nodes if isinstance(n[1], str)]
+            deep = [n for n in strs if len(n[0]) >= 2]
+            if deep and r.random() < 0.6:
+                nodes = deep
+            elif strs and r.random() < 0.7:
+                nodes = strs
             if nodes:
                 node_path, _ = r.choice(nodes)
                 parts = []
